@@ -37,8 +37,23 @@ def run(prog):
     return obs, floors, {}
 
 
+def filedata_fields(prog):
+    """names of FileData's in-progress flag (its bool field) and cached value (its Option<Val> field), whatever they are called"""
+    flag, value = "evaluating", "evaluated"
+    for unit, a in prog.adts():
+        if a["path"] == EV + "FileData":
+            bools = [x["name"] for v in a["variants"] for x in v["fields"] if x["ty"] == "bool"]
+            vals = [x["name"] for v in a["variants"] for x in v["fields"] if x["ty"].startswith("core::option::Option<") and x["ty"].endswith("val::Val>")]
+            if len(bools) == 1:
+                flag = bools[0]
+            if len(vals) == 1:
+                value = vals[0]
+    return flag, value
+
+
 def check_import_resolved(prog):
     obs = []
+    FLAG, VALUE = filedata_fields(prog)
     f = prog.fn(EV + "State::import_resolved")
     if f is None:
         return [bad(RULE, "import_resolved:anchor", "", "State::import_resolved not found")]
@@ -51,7 +66,7 @@ def check_import_resolved(prog):
     hit = False
     for u, v, (d, val) in f._cond_edge_list():
         if d[0] == "discr" and isinstance(val, tuple) and val[0] == "variant" and val[1] == "Some":
-            if contains(strip(d[1]), lambda x: x[0] == "field" and x[2] == "evaluated"):
+            if contains(strip(d[1]), lambda x: x[0] == "field" and x[2] == VALUE):
                 if not (v == k or k in f.reach_from(v)):
                     hit = True
     obs.append(ok(RULE, "import_resolved:hit", st, "an already evaluated file is returned without evaluating again") if hit else
@@ -60,7 +75,7 @@ def check_import_resolved(prog):
     cyc = False
     for u, v, (d, val) in f._cond_edge_list():
         sd = strip(d)
-        if sd[0] == "field" and sd[2] == "evaluating" and val is True:
+        if sd[0] == "field" and sd[2] == FLAG and val is True:
             region = {v} | f.reach_from(v)
             err = any(s[0] == "a" and s[2][0] == "agg" and s[2][3] == "InfiniteRecursionDetected" for b in region for s in f.stmts(b))
             if err and k not in region:
@@ -68,7 +83,7 @@ def check_import_resolved(prog):
     obs.append(ok(RULE, "import_resolved:cycle", st, "a file that is being evaluated is reported as InfiniteRecursionDetected") if cyc else
                bad(RULE, "import_resolved:cycle", st, "the `evaluating` flag does not stop a strict import cycle before evaluate()"))
     # marker and reset
-    stores = field_stores(f, "evaluating")
+    stores = field_stores(f, FLAG)
     trues = [b for b, v, s in stores if v in (1, True)]
     falses = {b for b, v, s in stores if v in (0, False)}
     marker = any(b == k or k in f.reach_from(b) for b in trues)
@@ -86,7 +101,7 @@ def check_import_resolved(prog):
     else:
         obs.append(ok(RULE, "import_resolved:reset", st, "every path from evaluate() to return resets evaluating = false (success and error)"))
     # evaluated stored only on success, and with the value
-    ev_stores = field_stores(f, "evaluated")
+    ev_stores = field_stores(f, VALUE)
     obs.append(ok(RULE, "import_resolved:store", st, "the value is cached in file.evaluated") if ev_stores else
                bad(RULE, "import_resolved:store", st, "the evaluated value is never cached"))
     live = memo.guards_live_at(f, k)
